@@ -25,7 +25,11 @@ def load():
     return json.load(open(JSON))['sites']
 
 
-def render(sites):
+def load_prints():
+    return json.load(open(JSON)).get('functions', [])
+
+
+def render(sites, prints):
     L = ['(* RENDERED by translate/mk_panicreview.py from corpus/C06/panic_sites_reviewed.json -- reviewed by hand.',
          '   One row per panic-capable site of Gen/GenPanicSites.v: modelled (a model Panic site / model function',
          '   represents it), guarded (unreachable by the preceding check named in the text) or not peer-reachable',
@@ -41,7 +45,15 @@ def render(sites):
             coq_str(s['file']), coq_str(s['fn']), s['kind'], s['ord'], VERDICT[s['verdict']], coq_str(s['why']),
             ';' if n + 1 < len(sites) else ''))
     L.append('].')
+    L.append('(* the fingerprint each owning function had when its rows were reviewed *)')
+    L.append('Definition print_table : list fn_print := [')
+    for n, q in enumerate(prints):
+        L.append('  mk_print %s %s %d%s' % (coq_str(q['file']), coq_str(q['fn']), q['print'], ';' if n + 1 < len(prints) else ''))
+    L.append('].')
     L.append('''
+Definition print_reviewed (q : fn_print) : bool :=
+  existsb (fun r => String.eqb (p_file r) (p_file q) && String.eqb (p_fn r) (p_fn q) && N.eqb (p_hash r) (p_hash q)) print_table.
+
 Definition pkind_eqb (a b : pkind) : bool :=
   match a, b with
   | K_unwrap, K_unwrap | K_expect, K_expect | K_panic, K_panic | K_unreachable, K_unreachable
@@ -80,6 +92,10 @@ def todo(repo):
         print('NEW   %s:%s  %s  %s #%d' % (r[0], f['lines']['|'.join([r[0], r[1], r[2], str(r[3])])], r[1], r[2], r[3]))
     for r in gone:
         print('STALE %s  %s  %s #%d' % r)
+    hp = {(q['file'], q['fn']): q['print'] for q in load_prints()}
+    for (a, b, c) in f['prints']:
+        if hp.get((a, b)) != c:
+            print('CHANGED-FN %s:%s  %s  (every row of this function must be reviewed again)' % (a, f['print_lines'][a + '|' + b], b))
     return new, gone
 
 
@@ -87,6 +103,15 @@ if __name__ == '__main__':
     if '--todo' in sys.argv:
         new, gone = todo(os.environ.get('VERIF_REPO', '/repo'))
         print('%d unclassified, %d stale' % (len(new), len(gone)))
+    elif '--accept-prints' in sys.argv:
+        # AFTER re-reviewing the rows of the functions listed by --todo: record their current fingerprints
+        import gen_panicsites as g
+        f, _ = g.extract(os.environ.get('VERIF_REPO', '/repo'))
+        d = json.load(open(JSON))
+        d['functions'] = [{'file': a, 'fn': b, 'print': c} for (a, b, c) in f['prints']]
+        json.dump(d, open(JSON, 'w'), indent=0)
+        open(OUT, 'w').write(render(d['sites'], d['functions']))
+        print('accepted %d function fingerprints; wrote %s' % (len(d['functions']), OUT))
     else:
-        open(OUT, 'w').write(render(load()))
+        open(OUT, 'w').write(render(load(), load_prints()))
         print('wrote', OUT)
